@@ -30,6 +30,11 @@ def main():
     a = ap.parse_args()
 
     warnings.simplefilter("ignore")
+    # a runaway case must not take the machine down: cap the address space (a MemoryError is then
+    # an ordinary exception inside the case)
+    import resource
+    cap = int(os.environ.get("VERIF_WORKER_MEM_MB", "8000")) << 20
+    resource.setrlimit(resource.RLIMIT_AS, (cap, cap))
     sys.path.insert(0, a.builddir)
     import asynq
     import asynq.scheduler
